@@ -39,6 +39,10 @@ const SETUPS = {
   arrowDestructured: (T) => `(props: {}, { emit }: SetupContext<${T}>) => () => null`,
   fnExpr: (T) => `function (props: {}, ctx: SetupContext<${T}>) { return () => null; }`,
   fnExprNamed: (T) => `function setup(props: { q: string }, ctx: SetupContext<${T}>) { return () => null; }`,
+  // an options argument that says nothing about emits
+  optsProps: (T) => `(props: {}, ctx: SetupContext<${T}>) => () => null, { props: { own: String } }`,
+  optsNameProps: (T) => `(props: { q: string }, { emit }: SetupContext<${T}>) => () => null, { name: 'Own', 'props': {} }`,
+  fnExprDestructured: (T) => `function (props: {}, { emit, attrs }: SetupContext<${T}>) { return () => null; }`,
   arrowTypedProps: (T) => `(props: { q: string }, ctx: SetupContext<${T}>) => () => null`,
 };
 const NO_EMITS = {
@@ -70,6 +74,10 @@ function render(c) {
       localIife: `export const C = (() => {\n  ${body}\n})();`,
     }[c.scope];
     return `${R.PRELUDE}${wrap}\n`;
+  }
+  if (c.scope === 'laterVueImport') {
+    // further import declarations from 'vue' after the one that names defineComponent
+    return `${R.PRELUDE}import { ref as unusedRef } from 'vue';\nimport type { Slots } from 'vue';\n${e.decls.join('\n')}\nexport const C = ${call};\n`;
   }
   if (c.scope === 'twice') {
     // two components of one module use the same declarations
@@ -136,7 +144,7 @@ function spaces(tier) {
       name: 'E:event-sets×encodings',
       bounds: { names: NAMES, max_names: 3, encodings: ENC_KEYS, setup_forms: Object.keys(SETUPS), positions: ['before', 'after'], scopes: ['module', 'function declaration', 'arrow', 'function expression', 'object method', 'IIFE', 'mixed (parents at module level)'] },
       *gen() {
-        for (const names of nameSets(tier === 'thorough')) for (const enc of ENC_KEYS) for (const setup of Object.keys(SETUPS)) for (const scope of ['module', 'local', 'localArrow', 'localFnExpr', 'localMethod', 'localIife', 'mixed', 'twice', 'shadowed', 'shadowedAfter']) for (const pos of (['mixed', 'twice', 'shadowed', 'shadowedAfter'].includes(scope) ? ['before'] : ['before', 'after'])) {
+        for (const names of nameSets(tier === 'thorough')) for (const enc of ENC_KEYS) for (const setup of Object.keys(SETUPS)) for (const scope of ['module', 'local', 'localArrow', 'localFnExpr', 'localMethod', 'localIife', 'mixed', 'twice', 'shadowed', 'shadowedAfter', 'laterVueImport']) for (const pos of (['mixed', 'twice', 'shadowed', 'shadowedAfter', 'laterVueImport'].includes(scope) ? ['before'] : ['before', 'after'])) {
           yield { sp: 'E', names, enc, setup, scope, pos };
         }
       },
